@@ -75,6 +75,18 @@ def handlers(M: Machine):
         # the buffer (reading a tile before anything wrote it is outside the property)
         I.set(op.results[0], View(M.new_root(f"alloc:{hint}", z3.Array(f"uninit:{hint}", z3.IntSort(), z3.IntSort())), 0, n, hint))
 
+    def h_get_global(I, op):
+        # every reference to one global is the same buffer
+        nm = op.name_.string_value()
+        t = op.results[0].type
+        n = 1
+        for d in t.get_shape():
+            n *= d
+        g = M.__dict__.setdefault("globals_", {})
+        if nm not in g:
+            g[nm] = M.new_root(f"global:{nm}", z3.Array(f"uninit:{nm}", z3.IntSort(), z3.IntSort()))
+        I.set(op.results[0], View(g[nm], 0, n, nm))
+
     def h_subview(I, op):
         src = I.get(op.source)
         dyn = iter(I.get(o) for o in op.offsets)
@@ -120,7 +132,7 @@ def handlers(M: Machine):
         else:
             I.set(op.result, z3.If(c != 0, a, b))
 
-    return {"memref.alloc": h_alloc, "memref.subview": h_subview, "memref.copy": h_copy, "linalg.generic": h_gen,
+    return {"memref.alloc": h_alloc, "memref.get_global": h_get_global, "memref.subview": h_subview, "memref.copy": h_copy, "linalg.generic": h_gen,
             "snax.cluster_sync_op": h_sync, "arith.select": h_select, "memref.dealloc": lambda I, op: None}
 
 
@@ -201,6 +213,8 @@ def gen_case(rnd):
     stages = [[(("gens", o[1], rnd.choice(["first", "last"]), o[3], o[4]) if o[0] == "gen" and rnd.random() < 0.25 else o) for o in ops] for ops in stages]
     # tile buffers are allocations, or views into one scratchpad allocated in front of the loop
     tile_kind = "view" if rnd.random() < 0.2 else "alloc"
+    if tile_kind == "alloc" and len(tiles) and sum(map(ord, "".join(tiles))) % 9 == 0 and S % 2:
+        tile_kind = "global"
     return (S, tuple(tiles), tuple(tuple(s) for s in stages), loop, mul, tile_kind)
 
 
@@ -209,7 +223,7 @@ def render(case):
     tile_kind = case[5] if len(case) > 5 else "alloc"
     L = []
     P = "      "
-    ty = lambda v: (TILE if tile_kind == "alloc" else SUB) if v.startswith("%t") else SUB
+    ty = lambda v: (TILE if tile_kind in ("alloc", "global") else SUB) if v.startswith("%t") else SUB
     for ops in stages:
         for o in ops:
             if o[0] == "copy":
@@ -232,25 +246,42 @@ def render(case):
         bounds = "    %k0 = arith.constant 0 : index\n    %l = arith.addi %lb, %k0 : index\n    %u = arith.addi %ub, %k0 : index\n    %s = arith.constant 1 : index"
     else:
         bounds = "    %l = arith.constant 0 : index\n    %u = arith.addi %ub, %l : index\n    %s = arith.addi %st, %l : index"
+    globals_ = ""
     if tile_kind == "alloc":
         allocs = "\n".join(f"    {t} = memref.alloc() : {TILE}" for t in tiles)
+    elif tile_kind == "global":
+        # tile buffers that are (uninitialised) globals: a second reference is the same buffer, not a second one
+        allocs = "\n".join(f"    {t} = memref.get_global @g{t[1:]} : {TILE}" for t in tiles)
+        globals_ = "\n".join(f'  "memref.global"() <{{alignment = 64 : i64, initial_value, sym_name = "g{t[1:]}", sym_visibility = "private", type = {TILE}}}> : () -> ()' for t in tiles) + "\n"
     else:
         allocs = f"    %scratch = memref.alloc() : memref<{NT * len(tiles)}xi32>\n" + "\n".join(
             f"    {t} = memref.subview %scratch[{NT * k}] [{NT}] [1] : memref<{NT * len(tiles)}xi32> to {SUB}" for k, t in enumerate(tiles))
+    extra = case[6] if len(case) > 6 else None
+    # a second, barrier-free loop in the same function that shares the bound constants with the pipelined one
+    other = f"""    scf.for %j = %l to %u step %s {{
+      %offj = arith.muli %j, %c : index
+      %ja = memref.subview %A[%offj] [{NT}] [1] : {BIG} to {SUB}
+      %jc = memref.subview %C[%offj] [{NT}] [1] : {BIG} to {SUB}
+      "memref.copy"(%ja, %jc) {{tag = 801 : i32}} : ({SUB}, {SUB}) -> ()
+    }}
+"""
+    # (separated from the pipelined loop by a barrier, so that the source itself is race free)
+    sync = '    "snax.cluster_sync_op"() : () -> ()\n'
+    pre_loop, post_loop = (other + sync if extra == "before" else ""), (sync + other if extra == "after" else "")
     return f"""
 builtin.module {{
-  func.func public @f(%A : {BIG}, %B : {BIG}, %C : {BIG}, %lb : index, %ub : index, %st : index, %zp : i32) {{
+{globals_}  func.func public @f(%A : {BIG}, %B : {BIG}, %C : {BIG}, %lb : index, %ub : index, %st : index, %zp : i32) {{
     %c = arith.constant {mul} : index
 {bounds}
 {allocs}
-    scf.for %i = %l to %u step %s {{
+{pre_loop}    scf.for %i = %l to %u step %s {{
       %off = arith.muli %i, %c : index
       %sa = memref.subview %A[%off] [{NT}] [1] : {BIG} to {SUB}
       %sb = memref.subview %B[%off] [{NT}] [1] : {BIG} to {SUB}
       %sc = memref.subview %C[%off] [{NT}] [1] : {BIG} to {SUB}
 {chr(10).join(L)}
     }}
-    func.return
+{post_loop}    func.return
   }}
 }}
 """
@@ -427,8 +458,17 @@ def run(chk):
     }
     for nm, (S_, tiles_, stages_) in fixed.items():
         for loop in [("const", 0, n_, 1) for n_ in range(0, 6)] + [("sym_ub",)]:
-            for tk in ("alloc", "view") if nm in ("skip3", "feedback2", "chain3") else ("alloc",):
+            for tk in ("alloc", "view", "global") if nm in ("skip3", "feedback2", "chain3") else ("alloc",):
                 cases.append((S_, tiles_, stages_, loop, NT, tk))
+            if nm == "chain3" and loop[0] == "const" and loop[2] in (0, 2, 4):
+                for extra in ("after", "before"):
+                    cases.append((S_, tiles_, stages_, loop, NT, "alloc", extra))
+    # every fifth sampled program gets a second loop sharing its bound constants
+    cases = [c + (("after" if k % 10 == 0 else "before"),) if k % 5 == 0 and k < (160 if quick else 2000) else c for k, c in enumerate(cases)]
+    if True:
+        if True:
+            if True:
+                pass
     chk.add_results("pipelines", pmap(case_pipe, cases, chunks=4))
     chk.bounds = dict(programs=len(cases), stages="2..4", ops_per_stage="1..2", trip_counts="0..6 (unrolling bound)", tile=NT, buffer=NBIG)
     chk.outside = ["streaming regions as stage operations", "trip counts above 6", "nested loops (the pass declines them)", "insert-sync-barrier / dispatch-regions after unrolling (C13, C14)"]
